@@ -172,7 +172,9 @@ InnerSize(o)  == 2 * KOf(o)
 NoEntry == [has |-> FALSE, half |-> [ok |-> TRUE, shares |-> <<>>, par |-> FALSE, src |-> "none"], ext |-> <<>>, proofs |-> FALSE]
 Keys(k) == {"row", "col"} \X (0..(2*k-1))
 ColdPc(k) == [key \in Keys(k) |-> NoEntry]
-Wrap(o) == [inner |-> o, pc |-> ColdPc(KOf(o)), closed |-> FALSE]
+(* sz: the validation wrapper remembers the square size after its first successful look-up and     *)
+(* answers Size() from that copy even after Close                                                   *)
+Wrap(o) == [inner |-> o, pc |-> ColdPc(KOf(o)), closed |-> FALSE, sz |-> FALSE]
 
 (* what the cache keeps of a half (where it came from is forgotten) *)
 Cached(h) == [h EXCEPT !.src = "cache"]
@@ -267,7 +269,7 @@ CanonInner(W, o) ==
      /\ o.mem \in BOOLEAN
 CanonObj(W, w) ==
   /\ CanonInner(W, w.inner)
-  /\ w.closed \in BOOLEAN
+  /\ w.closed \in BOOLEAN /\ w.sz \in BOOLEAN
   /\ \E level \in {"cold", "upper", "all"} :
         /\ w.pc = PcShape(W, w.inner, level)
         /\ (level = "all" /\ w.inner.variant = "odsq4") => w.inner.q4.st # "unopened"
@@ -283,9 +285,10 @@ RECURSIVE NdLoop(_, _, _, _, _, _)
 NdLoop(W, w, dq4, ns, rows, acc) ==         \* rows: ascending sequence of row indexes
   IF rows = <<>> THEN [res |-> [ok |-> TRUE, rows |-> acc], w |-> w]
   ELSE LET i == Head(rows)
-           r == IF ~InBounds(KOf(w.inner), i) THEN [res |-> Rej("oob"), w |-> w]
-                ELSE IF ~ValidForData(ns) THEN [res |-> Rej("ns"), w |-> w]
-                ELSE PcRowND(W, w, dq4, ns, i)
+           ws == [w EXCEPT !.sz = TRUE]
+           r == IF ~InBounds(KOf(w.inner), i) THEN [res |-> Rej("oob"), w |-> ws]
+                ELSE IF ~ValidForData(ns) THEN [res |-> Rej("ns"), w |-> ws]
+                ELSE PcRowND(W, ws, dq4, ns, i)
        IN IF ~r.res.ok THEN [res |-> r.res, w |-> r.w]
           ELSE NdLoop(W, r.w, dq4, ns, Tail(rows), Append(acc, [row |-> i, nd |-> r.res]))
 RECURSIVE AscSeq(_)
@@ -298,24 +301,34 @@ RootNsRange(root, i) ==       \* the namespace range an (ideal) row root commits
 RowsByRoots(roots, ns) ==     \* share.RowsWithNamespace on the roots the ACCESSOR returned
   { i \in DOMAIN roots.row : RootNsRange(roots.row[i], i)[1] <= ns /\ ns <= RootNsRange(roots.row[i], i)[2] }
 
-(* validation( closeOnce( proofsCache( inner ))) -- the accessor the store hands out               *)
+(* validation( closeOnce( proofsCache( inner ))) -- the accessor the store hands out.               *)
+(* Order of the checks, as in the code: validation first looks up the size (from its own copy, or  *)
+(* through close-once, which refuses when closed), then checks the bounds; then close-once; then   *)
+(* the proof cache.  Shares/Reader/AxisRoots/DataHash are not validated (no arguments).            *)
 WRead(W, w, dq4, op, args) ==
   LET k == KOf(w.inner)
       closedR == [res |-> Rej("closed"), w |-> w]
-      oobR    == [res |-> Rej("oob"), w |-> w] IN
-  CASE op = "Size"   -> IF w.closed THEN closedR ELSE [res |-> [ok |-> TRUE, v |-> InnerSize(w.inner)], w |-> w]
+      oobR    == [res |-> Rej("oob"), w |-> w]
+      noSize  == w.closed /\ ~w.sz                       \* validation cannot learn the size any more
+      ws      == [w EXCEPT !.sz = TRUE] IN               \* ... otherwise it knows it from now on
+  CASE op = "Size"   -> IF noSize THEN closedR ELSE [res |-> [ok |-> TRUE, v |-> InnerSize(w.inner)], w |-> ws]
     [] op = "Hash"   -> IF w.closed THEN closedR ELSE [res |-> [ok |-> TRUE, v |-> InnerHash(w.inner)], w |-> w]
     [] op = "Roots"  -> IF w.closed THEN closedR ELSE [res |-> [ok |-> TRUE, v |-> InnerRoots(w.inner)], w |-> w]
-    [] op = "Sample" -> IF ~InBounds(k, args[1]) \/ ~InBounds(k, args[2]) THEN oobR
-                        ELSE IF w.closed THEN closedR ELSE PcSample(W, w, dq4, args[1], args[2])
-    [] op = "AxisHalf" -> IF ~InBounds(k, args[2]) THEN oobR
-                          ELSE IF w.closed THEN closedR ELSE PcAxisHalf(W, w, dq4, args[1], args[2])
-    [] op = "RowND"  -> IF ~InBounds(k, args[2]) THEN oobR
-                        ELSE IF ~ValidForData(args[1]) THEN [res |-> Rej("ns"), w |-> w]
-                        ELSE IF w.closed THEN closedR ELSE PcRowND(W, w, dq4, args[1], args[2])
-    [] op = "Range"  -> IF args[1] < 0 \/ args[1] >= args[2] \/ args[1] >= k*k \/ args[2] > k*k THEN oobR
+    [] op = "Sample" -> IF noSize THEN closedR
+                        ELSE IF ~InBounds(k, args[1]) \/ ~InBounds(k, args[2]) THEN [res |-> Rej("oob"), w |-> ws]
+                        ELSE IF w.closed THEN closedR ELSE PcSample(W, ws, dq4, args[1], args[2])
+    [] op = "AxisHalf" -> IF noSize THEN closedR
+                          ELSE IF ~InBounds(k, args[2]) THEN [res |-> Rej("oob"), w |-> ws]
+                          ELSE IF w.closed THEN closedR ELSE PcAxisHalf(W, ws, dq4, args[1], args[2])
+    [] op = "RowND"  -> IF noSize THEN closedR
+                        ELSE IF ~InBounds(k, args[2]) THEN [res |-> Rej("oob"), w |-> ws]
+                        ELSE IF ~ValidForData(args[1]) THEN [res |-> Rej("ns"), w |-> ws]
+                        ELSE IF w.closed THEN closedR ELSE PcRowND(W, ws, dq4, args[1], args[2])
+    [] op = "Range"  -> IF args[1] < 0 \/ args[1] >= args[2] THEN oobR
+                        ELSE IF noSize THEN closedR
+                        ELSE IF args[1] >= k*k \/ args[2] > k*k THEN [res |-> Rej("oob"), w |-> ws]
                         ELSE IF w.closed THEN closedR
-                        ELSE LET r == InnerRange(W, w.inner, args[1], args[2]) IN [res |-> r.res, w |-> w]
+                        ELSE LET r == InnerRange(W, w.inner, args[1], args[2]) IN [res |-> r.res, w |-> ws]
     [] op = "Shares" -> IF w.closed THEN closedR ELSE PcShares(W, w, dq4)
     [] op = "Reader" -> IF w.closed THEN closedR ELSE PcReader(W, w, dq4)
     [] op = "ND"     -> IF w.closed THEN closedR
